@@ -22,7 +22,7 @@ func init() {
 			"nhooyr.io/websocket: Dial with a wss: URL and no custom HTTPClient performs default certificate verification",
 		},
 		explain: "Decides the whole statement as path facts: (O1) in NewSession every path from entry to auth/resume/bind/session/enable-SM crosses the true edge of Transport.IsSecure() or of Config.Insecure, and nothing between that test and auth can change the flag; (O2) every byte written before the gate is a constant or the stream header; (O3) isSecure is set to true only after Handshake()==nil and (InsecureSkipVerify or VerifyHostname(Config.Domain)==nil) on the very connection that becomes t.conn; (O4) every function that replaces t.conn also writes isSecure, so the flag describes the current connection; (O5) no library code relaxes Config.Insecure or InsecureSkipVerify; (O6) the websocket transport is secure exactly for wss: and supplies no custom HTTP client.",
-		assume: []string{"the application does not mutate Config or the transport concurrently with Connect", "one negotiation runs at a time per Client"},
+		assume:  []string{"the application does not mutate Config or the transport concurrently with Connect", "one negotiation runs at a time per Client"},
 	})
 }
 
